@@ -63,6 +63,7 @@ T=[
  ("fx-value-as-default-read-as-type","C04","60fb455","replays/C04/fixed/value-as-default-read-as-type.json","export { v as default } of a constant, read as a qualified type (D.A), hit unreachable!() in the qualified-type walker"),
  ("fx-tuple-padding-not-idempotent","C03","0d21b04","replays/C03/fixed/tuple-padding-not-idempotent.json","parse padded a tuple that was accepted although shorter than its prefix with undefined; with an array branch next to the tuple in a union ([{ k?: string }, string | null] | { [key: string]: \"a\" }[] on [{ z: \"a\" }]) the padded result only matched the tuple branch, so parse(parse(x)) differed from parse(x)"),
  ("fx-refused-then-printed","C02","3460c0c","replays/C02/fixed/refused-then-printed.json","a named type whose body cannot be printed ({ a: Map<string, string>; ... }) stayed marked as in progress in the SchemaPrintingContext after the failed print: the same parser printed again into that context returned { $ref: \"#/$defs/Alpha\" } although Alpha is never stored (a dangling $ref instead of the refusal)"),
+ ("fx-dollar-dollar-in-type-name","C16","5d3d352","replays/C16/fixed/dollar-dollar-in-type-name.json","a named type whose name contains $$ (type Beta$$ = ...) was referenced as #/$defs/Beta$ (String.replace read the name as a replacement pattern) while its definition was stored as Beta$$: a dangling $ref in every schema that mentions it"),
 ]
 p='/verif/known_findings.json'
 doc=json.load(open(p))
